@@ -286,6 +286,54 @@ PROPS["C12"] = {
 }
 
 
+CLI_RUN = {"level": "cli", "args_quick": ["--n", "150"], "args_thorough": ["--n", "4000"]}
+CLI_RULE = ("the built `normalizer` binary (feature cli, rebuilt from the current /repo) in fresh scratch directories: 1-3 input files "
+            "(empty, ASCII, binary, UTF-8 with / without BOM, texts in 10 legacy encodings) under names with no / one / several dots, sometimes "
+            "a pre-existing sibling, a directory argument, a missing argument, or an input whose name IS the sibling name of another input; "
+            "10 flag families incl. the three contradictory ones and thresholds inside / outside [0,1]; directory snapshot before / after, "
+            "exit status and stdout compared with Model/Cli.v run on the same flags and files (its library oracle answered by the in-process "
+            "library): files written with content, status, report kind, every field of every record; and the property statements checked "
+            "directly; non-trivial = well-formed invocations on readable inputs")
+
+PROPS["C14"] = {
+    "module": "PropC14",
+    "theorems": ["C14_from_path_delegates"],
+    "model_targets": ["Model/Cli.vo"],
+    "runs": [{"level": "path", "args_quick": ["--n", "120"], "args_thorough": ["--n", "3000"]}],
+    "search": {"level": "path", "args": ["--n", "600"]},
+    "rule": "real files of sizes 0, 1, steps*chunk_size-1 / +0 / +1, corpus files, > 1 MB, under default and random settings: from_path vs "
+            "from_bytes(read) signatures; failure kinds: missing, directory, path through a regular file, dangling symlink, symlink to a "
+            "file, mode-000 file read by a child process that dropped to uid 65534 (setpriv); every call under catch_unwind",
+    "assumptions": ["partial: std::fs / the operating system are not modelled; the theorem is near-definitional"],
+    "trusted": [],
+}
+
+PROPS["C15"] = {
+    "module": "PropC15",
+    "theorems": ["C15_no_normalize_no_change", "C15_inputs_unchanged", "C15_unrelated_paths_unchanged", "C15_every_write", "C15_sibling_name"],
+    "model_targets": ["Model/Cli.vo"],
+    "needs_cli": True,
+    "runs": [CLI_RUN],
+    "search": {"level": "cli", "args": ["--n", "800"]},
+    "rule": CLI_RULE,
+    "assumptions": ["std::fs, clap, dialoguer (no terminal: confirmation = no) are outside the model; file system = finite map of canonical paths"],
+    "trusted": [],
+}
+
+PROPS["C16"] = {
+    "module": "PropC16",
+    "theorems": ["C16_bad_invocation_rejected", "C16_report_shape", "C16_missing_file", "C16_error_means_no_report", "C16_records_from_library"],
+    "model_targets": ["Model/Cli.vo"],
+    "needs_cli": True,
+    "runs": [CLI_RUN, NAMES_RUN],
+    "search": {"level": "cli", "args": ["--n", "800"]},
+    "rule": CLI_RULE,
+    "assumptions": ["clap parsing and serde_json rendering are outside the model (the JSON text is parsed back and compared field by field)",
+                    "the CLI's byte-identical output across launches (C03 clause) is exercised by this level's repeated invocations only indirectly"],
+    "trusted": [],
+}
+
+
 def _tok(line):
     return line.split(" ")
 
